@@ -7,7 +7,8 @@
 //!   * `...` must be last; with it the remaining arguments become implicit imports, without it a missing argument is an
 //!     error.
 //! Universe: socket `t:p` importing a, b, c (instances); two exporter packages whose instances export subsets E1, E2 of
-//! {a, b, c}; argument lists of length <= MAXLEN over { a: v, b: v, c (inferred), ...s1, ...s2 } with repetition, with
+//! {a, b, c}; argument lists of length <= MAXLEN over { a: v, "a": v, b: v, c (inferred), c: v, ...s1, ...s2 } with repetition
+//! (the same argument may be given under two spellings: still a duplicate), with
 //! and without a trailing `...`, and `...` in a non-final position.  The REAL parser + resolver run on every document;
 //! on success the bound source of every argument is read back from the composition graph.
 //! Exit 0 = agreement on everything enumerated, 1 = a disagreeing document is printed.  usage: c04_args [maxlen]
@@ -16,7 +17,9 @@ use std::collections::BTreeMap;
 use wac_parser::{resolution::Error, Document};
 use wac_types::BorrowedPackageKey;
 
-const IMPORTS: [&str; 3] = ["a", "b", "c"];
+// two of the three imports are interface paths: `a: v` / `c` name them by their last segment (LANGUAGE.md rules 2, 3),
+// `"foo:dep/a": v` by the full path - two spellings of ONE argument
+const IMPORTS: [&str; 3] = ["foo:dep/a", "b", "foo:dep/c"];
 
 fn socket() -> Vec<u8> {
     let mut s = String::from("(component\n");
@@ -45,10 +48,10 @@ fn exporter(mask: u32) -> Vec<u8> {
 }
 
 #[derive(Clone, Copy, PartialEq, Debug)]
-enum Arg { NamedA, NamedB, InferredC, Spread1, Spread2, Fill }
+enum Arg { NamedA, NamedB, InferredC, Spread1, Spread2, Fill, StrA, NamedC }   // StrA / NamedC: the same argument, spelled differently
 
 fn text(a: Arg) -> &'static str {
-    match a { Arg::NamedA => "a: v", Arg::NamedB => "b: v", Arg::InferredC => "c", Arg::Spread1 => "...s1", Arg::Spread2 => "...s2", Arg::Fill => "..." }
+    match a { Arg::NamedA => "a: v", Arg::NamedB => "b: v", Arg::InferredC => "c", Arg::Spread1 => "...s1", Arg::Spread2 => "...s2", Arg::Fill => "...", Arg::StrA => "\"foo:dep/a\": v", Arg::NamedC => "\"foo:dep/c\": v" }
 }
 
 /// the composition LANGUAGE.md defines: argument name -> source label, or the class of diagnostic
@@ -57,7 +60,7 @@ fn reference(args: &[Arg], e: [u32; 2]) -> Result<BTreeMap<&'static str, String>
     let mut fill = false;
     for (i, a) in args.iter().enumerate() {
         let (name, src) = match a {
-            Arg::NamedA => ("a", "v"), Arg::NamedB => ("b", "v"), Arg::InferredC => ("c", "c"),
+            Arg::NamedA | Arg::StrA => ("foo:dep/a", "v"), Arg::NamedB => ("b", "v"), Arg::InferredC => ("foo:dep/c", "c"), Arg::NamedC => ("foo:dep/c", "v"),
             Arg::Fill => { if i != args.len() - 1 { return Err("FillArgumentNotLast"); } fill = true; continue; }
             _ => continue,
         };
@@ -77,7 +80,7 @@ fn reference(args: &[Arg], e: [u32; 2]) -> Result<BTreeMap<&'static str, String>
 
 fn main() {
     let maxlen: usize = std::env::args().nth(1).and_then(|s| s.parse().ok()).unwrap_or(3);
-    let alphabet = [Arg::NamedA, Arg::NamedB, Arg::InferredC, Arg::Spread1, Arg::Spread2, Arg::Fill];
+    let alphabet = [Arg::NamedA, Arg::NamedB, Arg::InferredC, Arg::Spread1, Arg::Spread2, Arg::Fill, Arg::StrA, Arg::NamedC];
     let mut lists: Vec<Vec<Arg>> = vec![vec![]];
     let mut frontier: Vec<Vec<Arg>> = vec![vec![]];
     for _ in 0..maxlen {
@@ -151,11 +154,13 @@ fn names(mask: u32) -> Vec<&'static str> { IMPORTS.iter().enumerate().filter(|(i
 fn faults(args: &[Arg], e: [u32; 2]) -> Vec<&'static str> {
     let mut f = vec![];
     if args.iter().enumerate().any(|(i, a)| *a == Arg::Fill && i != args.len() - 1) { f.push("FillArgumentNotLast"); }
-    for a in [Arg::NamedA, Arg::NamedB, Arg::InferredC] { if args.iter().filter(|x| **x == a).count() > 1 { f.push("DuplicateInstantiationArg"); } }
+    // the same argument NAME twice, however it is spelled (identifier, string, inferred)
+    for group in [&[Arg::NamedA, Arg::StrA][..], &[Arg::NamedB][..], &[Arg::InferredC, Arg::NamedC][..]] { if args.iter().filter(|x| group.contains(x)).count() > 1 { f.push("DuplicateInstantiationArg"); } }
     // a spread that supplies nothing once the earlier arguments are taken into account
     let stripped: Vec<Arg> = args.iter().copied().filter(|a| *a != Arg::Fill).collect();
     let mut dedup: Vec<Arg> = vec![];
-    for a in &stripped { if matches!(a, Arg::Spread1 | Arg::Spread2) || !dedup.contains(a) { dedup.push(*a); } }
+    let same_name = |x: Arg, y: Arg| x == y || matches!((x, y), (Arg::NamedA, Arg::StrA) | (Arg::StrA, Arg::NamedA) | (Arg::InferredC, Arg::NamedC) | (Arg::NamedC, Arg::InferredC));
+    for a in &stripped { if matches!(a, Arg::Spread1 | Arg::Spread2) || !dedup.iter().any(|d| same_name(*d, *a)) { dedup.push(*a); } }
     let mut with_fill = dedup.clone(); with_fill.push(Arg::Fill);
     match reference(&with_fill, e) { Err("SpreadInstantiationNoMatch") => f.push("SpreadInstantiationNoMatch"), _ => {} }
     if !args.contains(&Arg::Fill) { if let Err("MissingInstantiationArg") = reference(&dedup, e) { f.push("MissingInstantiationArg"); } }
